@@ -40,3 +40,11 @@ func parallel(n int, fn func(i int)) {
 	}
 	wg.Wait()
 }
+
+// derefType returns the element type of a pointer type (or t itself).
+func derefType(t types.Type) types.Type {
+	if p, ok := t.Underlying().(*types.Pointer); ok {
+		return p.Elem()
+	}
+	return t
+}
